@@ -247,6 +247,8 @@ func init() {
 // ---------------------------------------------------------------- C09
 
 func runC09(w *World, r *Report) {
+	r.Rule("reject", "every error exit of a decoder is behind a short input, a failed child or an unknown code, or is a reviewed rejection by value (spec/rejections.json)", 20)
+	rejectRule(w, r, "reject", func(pkg string) bool { return pkg == "protocol" })
 	r.Rule("stateless", "packet codecs depend on no package-level state that a call can change (pooled buffers, caches, shared table entries)", 8)
 	importStateless(w, r, "stateless")
 	r.Rule("lanes", "every header bit carries the specified field bit (encoder) and every field bit is read from the specified header bit (decoder)", 100)
